@@ -81,6 +81,8 @@ INTERNAL = 9
 MAXWALKS = 260
 
 RID = {"base": "vf-rid", "ext": "vf-rid-sub", "ext2": "vf-rid-sub-x",
+       # substring (infix / suffix) but not prefix of "ext"/"ext2": must not match
+       "infix": "rid-sub",
        "other": "zz-other", "md5": "<md5 of time_date_setupid>", "none": None}
 
 
@@ -164,7 +166,8 @@ def _server():
 
 SHAPES = ["chain", "cycle", "cycle", "lasso", "diamond", "selfloop", "random",
           "random", "two-cycle"]
-RIDK = ["base"] * 12 + ["ext"] * 4 + ["ext2"] * 2 + ["other"] * 2 + ["md5"] * 2 + ["none"] * 2
+RIDK = (["base"] * 12 + ["ext"] * 4 + ["ext2"] * 2 + ["other"] * 2 + ["md5"] * 2
+        + ["none"] * 2 + ["infix"] * 2)
 
 
 def _shape_edges(shape, k, draw):
